@@ -92,8 +92,8 @@ def max_rate(desc, molecules=10):
             for i in range(len(h)):
                 k = _env_si(r[key], envs[cenv[i]], r["units"], sysgen.kdim(order))
                 vol = h[i] ** 3
-                # molecules/s produced per cell at `molecules` per species: k * V * (n / (NA V))^order * NA
-                rate = k * vol * (Fr(molecules) / (na * vol)) ** order * na
+                # molecules/s per cell at `molecules` per species (si.py's SI amount unit is the molecule): k * V * (n / V)^order
+                rate = k * vol * (Fr(molecules) / vol) ** order
                 best = max(best, rate / max(1, molecules) * max(1, order))
     return best
 
